@@ -11,7 +11,13 @@ for l in open(log):
     src = f"/tmp/seed-out/{adv}/{pid}"
     if not os.path.isdir(src):
         continue
-    d = f"/verif/seeded/{pid}{suffix}"
+    sfx = suffix
+    if suffix == "auto":        # next free name: C12, C12-2, C12-3 ...
+        k = 1
+        while os.path.isdir(f"/verif/seeded/{pid}" + ("" if k == 1 else f"-{k}")):
+            k += 1
+        sfx = "" if k == 1 else f"-{k}"
+    d = f"/verif/seeded/{pid}{sfx}"
     os.makedirs(d, exist_ok=True)
     for f in glob.glob(src + "/*"):
         if os.path.isfile(f):
@@ -19,9 +25,9 @@ for l in open(log):
     meta = json.load(open(f"{d}/meta.json"))
     meta["origin"] = f"independent sub-agent {adv}: given only the property text and a scratch worktree of /repo HEAD"
     rc = int(m.group(4))
-    meta["confirmed_by_lead"] = {"command": f"tools/try_seeded.sh seeded/{pid}{suffix} {pid}", "demo_rc_on_clean_tree": int(m.group(2)),
+    meta["confirmed_by_lead"] = {"command": f"tools/try_seeded.sh seeded/{pid}{sfx} {pid}", "demo_rc_on_clean_tree": int(m.group(2)),
                                  "demo_rc_with_patch": int(m.group(3)), "first_check_run": {"exit": rc, "clauses": m.group(5).strip()}}
     if rc == 0:
         meta["confirmed_by_lead"]["status"] = "MISSED by the check as first built; builder asked to strengthen"
     json.dump(meta, open(f"{d}/meta.json", "w"), indent=1, ensure_ascii=False)
-    print(pid + suffix, "stored", "caught" if rc == 1 else "MISSED")
+    print(pid + sfx, "stored", "caught" if rc == 1 else "MISSED")
